@@ -870,8 +870,13 @@ def check(prog, rep):
         if kind == SAME:
             check_pipe_args(prog, rep, entry, pub, f_np, f_da, scalars_only=True)
         if kind == MODULE:
-            rep.add('H0', pub, entry, 'numpy path %s / dask path %s' % (f_np.qualname, f_da.qualname), pub.node.lineno,
-                    f_np is f_da, 'module-parametrised op: both paths must run the same function')
+            if f_np is f_da:
+                rep.add('H0', pub, entry, 'numpy path %s / dask path %s' % (f_np.qualname, f_da.qualname), pub.node.lineno, True,
+                        'module-parametrised op: both paths run the same function')
+            else:
+                # the two backends written as two functions (the branches of the shared one split apart): a pipeline like
+                # the others - the constants of the two must agree
+                check_pipe(prog, rep, entry, f_np, f_da)
         if fname in ('perlin', 'generate_terrain'):
             check_H6(prog, rep, entry, f_np, f_da)
         check_H7(prog, rep, entry, pub, sites, np_funcs, da_funcs)
